@@ -200,12 +200,18 @@ def install(state, spec):
 
     def visit(self, node):
         cur.append([])
+        complete = False
         try:
-            return orig_visit(self, node)
+            r = orig_visit(self, node)
+            complete = True
+            return r
         finally:
             calls = cur.pop()
+            # `complete` = the search of this function ran to its end (not interrupted by the wall-clock
+            # cut-off of the harness or by an exception): only complete searches are compared with the model
             st["erasure"].append({"calls": calls if len(calls) <= 64 else calls[:64], "tests": len(calls),
-                                  "summary": _summarise(calls), "max_combinations": self.max_combinations})
+                                  "summary": _summarise(calls), "max_combinations": self.max_combinations,
+                                  "complete": complete})
     tda.is_combination_feasible = feas
     te.TypeErasure.visit_func_decl = visit
     st["orig_erasure"] = (tda, orig_feas, te, orig_visit)
